@@ -241,6 +241,7 @@ type Outcome struct {
 	LoopAtCancel   int               `json:"-"`                      // passes of Exec's loop when the client's Cancel()/Close() had returned (-1: not applicable)
 	LoopAtEnd      int               `json:"-"`
 	Fallback       bool              `json:"fallback,omitempty"`
+	QueryType      string            `json:"query_type,omitempty"` // concrete type of the promql.Query the engine returned
 	DNative        float64           `json:"d_native"`
 	DFallback      float64           `json:"d_fallback"`
 	Res            *Result           `json:"res,omitempty"`
@@ -379,6 +380,10 @@ func RunQuery(r QueryRun) (o *Outcome) {
 	n1, f1 := r.Eng.counters()
 	o.DNative, o.DFallback = n1-n0, f1-f0
 	o.Fallback = o.DFallback > 0
+	if q != nil {
+		// what the engine handed out, independently of what it counted
+		o.QueryType = fmt.Sprintf("%T", q)
+	}
 	if ct != nil {
 		activeContract.Store(nil)
 	}
